@@ -1,4 +1,5 @@
 """C04 - importance weights follow the balance-heuristic mixture formula (refinement vs RefMIS on reached histories)."""
+import json
 import random
 
 from ..monitors import WeightsMon
@@ -9,9 +10,10 @@ PROP = "C04"
 LEVEL = "exploration"
 RULE = ("refinement of compute_logw_and_logz against an independent extended-precision reference after every commit and every load of seeded sampler "
         "executions; histories reached: equal batches, unequal batches (reconfigured resume), non-monotone beta order (re-run on a retained history), "
-        "warm-up batches with different logZ_t (zero-likelihood regions), |log L| up to ~1e6, likelihood shifts; plus permutation and shift laws on the "
+        "warm-up batches with different logZ_t (zero-likelihood regions), |log L| up to ~1e6, likelihood shifts; plus checkpoints with synthetic histories (T 1..20, unequal n_t>=1, beta_t in any order, "
+        "arbitrary finite logZ_t up to +-1e3, log-likelihoods spanning +-1e6) imported through the simulated file system with load_state; plus permutation and shift laws on the "
         "implementation itself; distinct = configuration/scenario class; non-trivial = at least 3 iterations")
-ASSUMPTIONS = ["only histories that some execution produces are explored (arbitrary synthetic logZ_t are not)", "RefMIS in 80-bit long double is the oracle; tolerance 1e-8 + 2560 eps (max|logL|+max|logZ_t|)"]
+ASSUMPTIONS = ["reachable histories come from simulated executions; synthetic ones enter only through the durable checkpoint path (load_state)", "RefMIS in 80-bit long double is the oracle; tolerance 1e-8 + 2560 eps (max|logL|+max|logZ_t|)"]
 
 
 def cases(seed, tier):
@@ -36,10 +38,69 @@ def cases(seed, tier):
         if r.random() < 0.3:
             c["target"]["shift"] = r.choice([-1000.0, -37.5, 64.0, 1000.0])
         out.append(c)
+    for k in range(n // 2):
+        r = random.Random(sch.np_seed(f"c04.syn{k}"))
+        out.append(dict(synthetic=True, seed=sch.np_seed(f"syn{k}") % (2**31), d=r.choice([1, 2, 3]), T=r.choice([1, 2, 3, 5, 8, 12, 20]), unequal=r.random() < 0.7, shuffle=r.random() < 0.6,
+                        scale=r.choice([1.0, 100.0, 1e4, 1e6])))
     return out
 
 
+def run_synthetic(case):
+    """A checkpoint with a synthetic history (any T, unequal n_t>=1, beta_t in any order, arbitrary finite logZ_t,
+    log-likelihoods spanning +-1e6) is written into the simulated file system and imported through load_state."""
+    import dill
+    import numpy as np
+
+    from ..world import World
+    from .. import targets as T
+
+    r = random.Random(case["seed"])
+    nr = np.random.RandomState(case["seed"] % (2**31))
+    d = case["d"]
+    Tn = case["T"]
+    scale = case["scale"]
+    hist = {k: [] for k in ("u", "x", "logl", "blobs", "iter", "logz", "calls", "steps", "efficiency", "ess", "acceptance", "beta")}
+    betas = sorted(r.random() for _ in range(Tn))
+    betas[0] = 0.0
+    if r.random() < 0.5:
+        betas[-1] = 1.0
+    if case["shuffle"]:
+        r.shuffle(betas)
+    for t in range(Tn):
+        n = r.choice([1, 2, 3, 5, 8, 13, 32]) if case["unequal"] else 8
+        hist["u"].append(nr.random_sample((n, d)))
+        hist["x"].append(nr.random_sample((n, d)))
+        center = r.uniform(-1, 1) * scale
+        hist["logl"].append(center + nr.standard_normal(n) * r.choice([1.0, 30.0, scale / 3.0]))
+        hist["logz"].append(r.uniform(-1, 1) * r.choice([1.0, 50.0, 1000.0]))
+        hist["beta"].append(betas[t])
+        hist["iter"].append(t + 1)
+        hist["calls"].append(8 * (t + 1))
+        hist["steps"].append(1)
+        hist["efficiency"].append(1.0)
+        hist["acceptance"].append(1.0)
+        hist["ess"].append(float(n))
+    cur = dict(u=hist["u"][-1], x=hist["x"][-1], logl=hist["logl"][-1], assignments=np.zeros(len(hist["logl"][-1]), dtype=int), blobs=None, acceptance=1.0, steps=1, efficiency=1.0,
+               ess=1.0, beta=hist["beta"][-1], logz=hist["logz"][-1], calls=hist["calls"][-1], iter=Tn)
+    blob = {"_current": cur, "_history": hist, "n_dim": d, "random_state": None, "n_total": 64, "logz_err": None}
+    mon = WeightsMon(random.Random(case["seed"] + 1), PROP)
+    w = World(dict(seed=case["seed"], target=dict(T.spec_gauss(d=d), kind="gauss"), cfg=dict(n_particles=8, clustering=False)), monitors=[mon])
+    with w.incarnation() as inc:
+        w.fs.sys_mkdir("/simfs/out")
+        with open("/simfs/out/synthetic.state", "wb") as f:
+            dill.dump(blob, f)
+        s = inc.new_sampler()
+        s.load_state("/simfs/out/synthetic.state")
+    if w.escapes:
+        raise RuntimeError("; ".join(w.escapes))
+    return dict(violations=list(w.violations), stats=dict(weight_checks=mon.n_checks, synthetic_histories=1), probes=dict(w.probes), digest=json.dumps([mon.n_checks, len(w.violations)]),
+                distinct_key=f"synthetic/T{Tn}/u{int(case['unequal'])}/s{int(case['shuffle'])}/scale{scale:g}", nontrivial=True, reach=mon.reach,
+                sample=dict(kind="synthetic checkpoint", T=Tn, sizes=[len(x) for x in hist["logl"]], betas=[round(b, 3) for b in hist["beta"]], logz=[round(z, 2) for z in hist["logz"]], reach=mon.reach))
+
+
 def run_case(case):
+    if case.get("synthetic"):
+        return run_synthetic(case)
     r = random.Random(case["seed"] + 17)
     mon = WeightsMon(r, PROP)
     out, w, info = wp.run_with(case, [mon])
@@ -60,4 +121,19 @@ def evidence(results, cases_, tier):
     return dict(reached_histories=agg)
 
 
-shrink = wp.generic_shrink
+def shrink(case):
+    return _shrink_syn(case) if case.get("synthetic") else wp.generic_shrink(case)
+
+
+
+def _shrink_syn(case):
+    if case["T"] > 1:
+        yield dict(case, T=max(1, case["T"] // 2))
+    if case["unequal"]:
+        yield dict(case, unequal=False)
+    if case["shuffle"]:
+        yield dict(case, shuffle=False)
+    if case["scale"] > 1:
+        yield dict(case, scale=case["scale"] / 100.0 if case["scale"] >= 100 else 1.0)
+    if case["d"] > 1:
+        yield dict(case, d=1)
